@@ -46,6 +46,8 @@ Cases ==
   \cup [g : {"chain"}, n : {2}, v1 : {1, 3, 4, 5}, v2 : {1, 3, 4, 5}, v3 : {1}, els : {TRUE}, emp : {1, 2, 4}]
   \cup [g : {"case"}, s : 1..Len(SU), w1 : 1..Len(WhenLists), w2 : 1..Len(WhenLists), els : {TRUE}, emp : {1, 2, 4}]
   \cup [g : {"dual"}, v1 : 1..NCU]
+  \* an else that is not the last clause: it is the branch whose condition is always truthy, in its place
+  \cup [g : {"midelse"}, a : BOOLEAN, b : BOOLEAN, shape : 1..4]
   \* and / or over values reached by a property lookup (m.x, m.y): exactly nil and false count as false, also when
   \* the value sits behind a Drop or a pointer (second emitted variant)
   \cup [g : {"logic"}, v1 : 1..NCU, v2 : {1, 2, 3, 4, 5}, op : {"and", "or"}]
@@ -67,6 +69,10 @@ ProgOf(x) ==
          << [t |-> "if", branches |-> << [c |-> Var(CN(1)), body |-> Mark(1)], [c |-> ElseC, body |-> Mark(2)] >>],
             T(<<124>>),
             [t |-> "if", neg |-> TRUE, branches |-> << [c |-> Var(CN(1)), body |-> Mark(2)], [c |-> ElseC, body |-> Mark(1)] >>] >>
+    [] x.g = "midelse" ->
+         << [t |-> "if", branches |-> << [c |-> Var(CN(1)), body |-> Mark(1)], [c |-> ElseC, body |-> Mark(2)],
+                                         [c |-> (CASE x.shape = 1 -> Var(CN(2)) [] x.shape = 4 -> Failing [] OTHER -> ElseC), body |-> Mark(3)] >>]
+            @@ (IF x.shape = 3 THEN [neg |-> TRUE] ELSE <<>>) >>
     [] x.g = "later" ->
          << [t |-> "if", branches |-> [i \in 1..3 |-> [c |-> IF i = x.pos THEN Failing ELSE Lit(Bool(i = x.sel)), body |-> Mark(i)]]
                                       \o <<[c |-> ElseC, body |-> Mark(4)]>>] >>
@@ -121,6 +127,7 @@ EnvOf2(x) ==
   CASE x.g = "chain" -> << <<CN(1), CU[x.v1]>>, <<CN(2), CU[x.v2]>>, <<CN(3), CU[x.v3]>> >>
     [] x.g = "dual" -> << <<CN(1), CU[x.v1]>> >>
     [] x.g = "later" -> <<>>
+    [] x.g = "midelse" -> << <<CN(1), Bool(x.a)>>, <<CN(2), Bool(x.b)>> >>
     [] x.g = "loop" -> << <<<<120>>, IntV(x.x)>> >>
     [] x.g = "logic" -> << <<<<109>>, MapV(<< <<<<120>>, CU[x.v1]>>, <<<<121>>, CU[x.v2]>> >>)>> >>
     [] x.g = "case" -> << <<<<115>>, SU[x.s]>> >>
@@ -139,6 +146,7 @@ Decl(x) ==   \* [status, out]
          LET vs == SubSeq(<<x.v1, x.v2, x.v3>>, 1, x.n) f == FirstTrue(vs)
          IN  [status |-> "ok", out |-> IF f > 0 THEN ME(x, f) ELSE IF x.els THEN ME(x, 4) ELSE <<>>]
     [] x.g = "dual" -> [status |-> "ok", out |-> IF Tr(x.v1) THEN <<65, 124, 65>> ELSE <<66, 124, 66>>]
+    [] x.g = "midelse" -> [status |-> "ok", out |-> IF (x.a /\ x.shape # 3) \/ (~x.a /\ x.shape = 3) THEN M(1) ELSE M(2)]
     [] x.g = "later" ->
          \* conditions are evaluated in order until one is truthy: the failing one is reached
          \* iff no earlier condition is selected
@@ -186,6 +194,7 @@ IfUnlessDual == c.g = "dual" /\ st.status = "ok" =>
 IdOf(x) ==
   CASE x.g = "chain" -> "chain-" \o ToString(x.n) \o "-" \o ToString(x.v1) \o "-" \o ToString(x.v2) \o "-" \o ToString(x.v3) \o "-" \o ToString(x.els) \o "-e" \o ToString(Emp(x))
     [] x.g = "dual" -> "dual-" \o ToString(x.v1)
+    [] x.g = "midelse" -> "midelse-" \o ToString(x.a) \o "-" \o ToString(x.b) \o "-" \o ToString(x.shape)
     [] x.g = "later" -> "later-" \o ToString(x.pos) \o "-" \o ToString(x.sel)
     [] x.g = "case" -> "case-" \o ToString(x.s) \o "-" \o ToString(x.w1) \o "-" \o ToString(x.w2) \o "-" \o ToString(x.els) \o "-e" \o ToString(Emp(x))
     [] x.g = "logic" -> "logic-" \o x.op \o "-" \o ToString(x.v1) \o "-" \o ToString(x.v2)
